@@ -44,7 +44,7 @@ CLAIMS = {
   "injective; the recursion's fuel |queue|+|auths|+1 is never exhausted; no panic for any input. The model is tied to the code by "
   "running vector_commitment_decommit and the model on trees built by the executable Lean spec builder (all friendly boundaries, five "
   "query shapes, every single-site corruption) under 2 (quick) / all 4 (thorough) hash builds.",
-  "Not modelled: stack depth of the recursive Rust function (bounded by |queue|+|auths|, proof-size linear).",
+  "Recursion depth of the (recursive) Rust walk: proved in the model to be at most 1 + sum of log2(heap index) over the queue, whatever the number of authentication nodes supplied (Props/C18 merkle_walk_calls_le, vector_decommit_calls_le); the frame size of the compiled Rust is not modelled.",
   "Lean 4 machine-checked proof (collision-extraction) over a hand model + correspondence check", "7/C04"),
  'C05': ("proof",
   "Lean theorems (Props/C05.lean): table decommitment of committed rows is accepted (Montgomery form, single-column rows unhashed, row "
@@ -218,7 +218,7 @@ CLAIMS = {
   "kernel-evaluated on the regenerated programs + list), conditional on validate_public_input having accepted the same public input — which is "
   "how the pipeline calls it (CallbacksOKAt, verify_panic_sites_at). Deep-reaching zero-trace forgeries with edited column / offset parameters "
   "exercise exactly that path on the real code.",
-  "The dynamic headline theorem assumes the Rust type facts (340 parameters, each a u64) and is a RELEASE-profile statement: floor_div by zero returns 0 in lambdaworks release builds (modelled so), a debug_assert would fire in a debug build. Stack exhaustion of the recursive Merkle walk and allocator aborts are runtime behaviour (an abort is recorded as a panic by the harness).",
+  "The dynamic headline theorem assumes the Rust type facts (340 parameters, each a u64) and is a RELEASE-profile statement: floor_div by zero returns 0 in lambdaworks release builds (modelled so), a debug_assert would fire in a debug build. RECURSION DEPTH is now a theorem of the model: every Merkle walk started by stark_verify (three trace / composition tables and every FRI layer) makes at most 1 + 48 x 87 = 4177 recursive calls whatever the lengths of the authentication vectors (merkle_walk_depth_bounded; the call count is proved to be exactly the least sufficient fuel, and to depend only on the indices); the frame size of the compiled Rust and allocator aborts remain runtime behaviour (an abort is recorded as a panic by the harness).",
   "Lean 4 machine-checked proof over model + translated programs + malformed-input sweep", "7/C18"),
 
  'C02': ("proof",
